@@ -323,7 +323,8 @@ GotoUndef == SetF([F EXCEPT !.st = "undef", !.j = Len(It.def)])
 \* i18n:translate applies to static content only (not with tal:content / tal:replace)
 \* (with tal:content the children are the text only when the expression gives `default`: they are translated then;
 \* any other value is itself offered as the message id -- CTrans)
-Translating(it) == it.tr.m = "yes" /\ it.sub.m \in {"none", "content"}
+\* (tal:replace: the element is rendered -- and its content translated -- only for `default`)
+Translating(it) == it.tr.m = "yes"
 
 TagShown == It.tag = "el" /\ (It.omit.m = "no" \/ (It.omit.m = "expr" /\ ~cells[COmit(F.i)].b))
 
@@ -366,8 +367,12 @@ ATrans(i, st, dy, v) ==
 StaticOf(it, key) == IndexOfKey(it.sattr, key)
 \* n: which call of this evaluation of the site's expression (the same call may be written several times in one expression)
 EvLog(site, a) == [n \in 1..Len(a.ev) |-> [ev |-> "call", k |-> a.ev[n].k, r |-> a.ev[n].r, site |-> site, act |-> Act, n |-> n]]
-                  \o (IF site.s = "sub" /\ items[site.i].sub.m = "content" /\ items[site.i].tr.m = "yes" /\ ~IsExc(a.r) /\ a.r # VDefault
-                      THEN << [ev |-> "ctrans", v |-> a.r, d |-> mx.i18n.d, c |-> mx.i18n.c, t |-> mx.i18n.t, site |-> site, act |-> Act] >>
+                  \* a value inserted by tal:content / tal:replace / tal:on-error on an element marked i18n:translate is offered
+                  \* itself: as the message id (id ""), or as the default of the explicit id (not when it is None)
+                  \o (IF site.s \in {"sub", "oe"} /\ items[site.i].tr.m = "yes" /\ ~IsExc(a.r) /\ a.r # VDefault
+                         /\ (items[site.i].tr.id # "" => a.r # VNone)
+                      THEN << [ev |-> "ctrans", v |-> a.r, id |-> items[site.i].tr.id, d |-> mx.i18n.d, c |-> mx.i18n.c, t |-> mx.i18n.t,
+                               site |-> site, act |-> Act] >>
                       ELSE <<>>)
                   \o (IF site.s \in {"sub", "attr", "text", "oe"} /\ IsMsg(a.r)
                       THEN << [ev |-> "offer", d |-> mx.i18n.d, c |-> mx.i18n.c, t |-> mx.i18n.t, site |-> site, act |-> Act] >>
@@ -613,12 +618,13 @@ SSw ==      \* visit_Cache for the switch expression
   /\ UNCHANGED <<pid, mx, res>>
 
 ValAtom(v, esc, i) == [a |-> "val", v |-> v, esc |-> esc, i |-> i, p |-> 0]
+TrVal(v, esc, i) == IF items[i].tr.m = "yes" THEN [tr |-> TRUE] @@ ValAtom(v, esc, i) ELSE ValAtom(v, esc, i)
 
 SRepl ==    \* tal:replace via _make_content_node (default -> the element)
   /\ Running /\ F.st = "repl"
   /\ LET K(v) == /\ ctl' = IF v = VDefault THEN Goto(NextStage(It, "repl")) ELSE Goto("loop")
                  /\ out' = IF v = VDefault \/ v = VNone THEN out
-                           ELSE Append(out, ValAtom(v, IF It.sub.s THEN "struct" ELSE "text", F.i))
+                           ELSE Append(out, TrVal(v, IF It.sub.s THEN "struct" ELSE "text", F.i))
                  /\ UNCHANGED <<envs, glob, rep, cells>>
      IN EvalAt(Site(F.i, "sub", 0), It.sub.e, K)
   /\ UNCHANGED <<pid, mx, res>>
@@ -756,9 +762,7 @@ SCont ==    \* tal:content via _make_content_node (default -> the children)
           /\ mx' = IF Translating(It) THEN [mx EXCEPT !.tr = Append(mx.tr, [mark |-> Len(out), names |-> <<>>])] ELSE mx
      ELSE LET K(v) == /\ ctl' = IF v = VDefault THEN GotoKids ELSE Goto("etag")
                       /\ out' = IF v = VDefault \/ v = VNone THEN out
-                                ELSE Append(out, IF It.tr.m = "yes"
-                                                 THEN [tr |-> TRUE] @@ ValAtom(v, IF It.sub.s THEN "struct" ELSE "text", F.i)
-                                                 ELSE ValAtom(v, IF It.sub.s THEN "struct" ELSE "text", F.i))
+                                ELSE Append(out, TrVal(v, IF It.sub.s THEN "struct" ELSE "text", F.i))
                       /\ mx' = IF v = VDefault /\ It.tr.m = "yes"
                                THEN [mx EXCEPT !.tr = Append(mx.tr, [mark |-> Len(out), names |-> <<>>])] ELSE mx
                       /\ UNCHANGED <<envs, glob, rep, cells>>
@@ -855,10 +859,18 @@ Unwind ==
 
 \* the fallback start tag carries the static attributes that no dynamic
 \* statement targets (program.py builds it from the constant Attribute nodes)
+\* (a static attribute that i18n:attributes names is translated there as well: C13 "the fallback's start tag")
 RECURSIVE StaticOnly(_, _, _)
 StaticOnly(i, P, n) ==
   IF n > Len(P) THEN <<>>
-  ELSE (IF P[n].dy = 0 THEN << [a |-> "sattr", i |-> i, n |-> P[n].st] >> ELSE <<>>) \o StaticOnly(i, P, n + 1)
+  ELSE (IF P[n].dy = 0
+        THEN << [a |-> IF IaIndex(items[i], items[i].sattr[P[n].st].key) > 0 THEN "tattr" ELSE "sattr", i |-> i, n |-> P[n].st] >>
+        ELSE <<>>) \o StaticOnly(i, P, n + 1)
+RECURSIVE StaticOnlyEv(_, _, _)
+StaticOnlyEv(i, P, n) ==
+  IF n > Len(P) THEN <<>>
+  ELSE (IF P[n].dy = 0 /\ IaIndex(items[i], items[i].sattr[P[n].st].key) > 0
+        THEN << ATrans(i, P[n].st, 0, VDefault) >> ELSE <<>>) \o StaticOnlyEv(i, P, n + 1)
 
 SFb ==      \* fallback: start tag with static attributes, value, end tag
   /\ Running /\ F.st = "fb"
@@ -871,7 +883,7 @@ SFb ==      \* fallback: start tag with static attributes, value, end tag
                 ELSE <<>>
          post == IF tags THEN << [a |-> "etag", i |-> F.i] >> ELSE <<>>
      IN \E a \in EvAll(It.oe.e, LookupAll) :
-          /\ log' = log \o EvLog(site, a)
+          /\ log' = log \o (IF tags THEN StaticOnlyEv(F.i, Prepared(It), 1) ELSE <<>>) \o EvLog(site, a)
           /\ tok' = site
           /\ IF IsExc(a.r)
              THEN /\ RaiseAt(site, a.r.c)
@@ -879,7 +891,7 @@ SFb ==      \* fallback: start tag with static attributes, value, end tag
                   /\ UNCHANGED ctl
              ELSE /\ out' = out \o pre
                            \o (IF a.r = VNone THEN <<>>
-                               ELSE << ValAtom(a.r, IF It.oe.s THEN "struct" ELSE "text", F.i) >>)
+                               ELSE << TrVal(a.r, IF It.oe.s THEN "struct" ELSE "text", F.i) >>)
                            \o post
                   /\ ctl' = Goto("done")
                   /\ UNCHANGED exc
